@@ -753,4 +753,76 @@ Section Hist.
     - exact (sub_of_justified a' s' (rev l') a s (rev l) n HI' HI S2 G2 Hn2 (eq_sym (Hagree n Hn))
                               y' oid' exs' y oid exs e' e Ha' Hy' Ha Hy A' B).
   Qed.
+
+  (** ** A conflict makes the history fail: in a successful flat history two contributions of one track agree on every
+      export they share *)
+  Theorem flat_success_no_conflict l a s :
+    Forall flat_contrib l -> NoDup (map ckey l) ->
+    aggregate_all ord cf fuel (agg0 tag0) st0 l 0 = inl (a, s) ->
+    forall c1 c2, In c1 l -> In c2 l -> compat_spec_b (fst c1) (fst c2) = true ->
+    forall en tr1 tr2, exports_of c1 en tr1 -> exports_of c2 en tr2 -> tr1 = tr2.
+  Proof.
+    intros HF ND H c1 c2 H1 H2 C en tr1 tr2 [i1 [x1 [ek1 [E1 [G1 [In1 U1]]]]]] [i2 [x2 [ek2 [E2 [G2 [In2 U2]]]]]].
+    pose proof (HInv_history l _ _ _ [] a s HInv_nil HF ND (fun _ _ X => X) H) as HI. rewrite app_nil_r in HI.
+    apply in_rev in H1, H2.
+    destruct (h_carried _ _ _ HI c1 H1 i1 x1 E1 G1) as [y1 [o1 [exs1 [A1 [Y1 X1]]]]].
+    destruct (h_carried _ _ _ HI c2 H2 i2 x2 E2 G2) as [y2 [o2 [exs2 [A2 [Y2 X2]]]]].
+    assert (Ec : Aggregator.canonical a (fst c1) = Aggregator.canonical a (fst c2)).
+    { rewrite !canonical_canon. apply (inv_one _ _ _ (h_names _ _ _ HI)); [now apply in_map | now apply in_map|].
+      now rewrite compat_is_spec_b. }
+    rewrite Ec, A2 in A1. injection A1 as <-. rewrite Y2 in Y1. injection Y1 as <- <-.
+    destruct (X1 en ek1 tr1 In1 U1) as [k1 [B1 V1]]. destruct (X2 en ek2 tr2 In2 U2) as [k2 [B2 V2]].
+    rewrite B2 in B1. injection B1 as <-.
+    destruct (h_flat _ _ _ HI _ _ (assoc_in _ _ _ A2)) as [y3 [o3 [exs3 [Ey [Y3 [_ Hall]]]]]]. injection Ey as <-.
+    rewrite Y2 in Y3. injection Y3 as <- <-. destruct (Hall en k2 (assoc_in _ _ _ B2)) as [Lk _].
+    eapply UnfK_same_agg; eauto.
+  Qed.
+
+  (** ** Aggregating a requirement whose exports are all present changes nothing observable *)
+  Lemma fsu_subset a b : (forall k, In k b -> In k a) -> first_seen_union a b = a.
+  Proof.
+    intros H. unfold first_seen_union.
+    assert (E : filter (fun k => negb (existsb (str_eqb k) a)) b = []).
+    { induction b as [|k b IH]; cbn [filter]; auto.
+      assert (existsb (str_eqb k) a = true) as -> by (apply existsb_str_in; apply H; now left).
+      cbn [negb]. apply IH. intros k0 Hk0. apply H. now right. }
+    rewrite E. apply app_nil_r.
+  Qed.
+
+  Theorem flat_idempotent_step a s done c a' s' y oid exs :
+    HInv a s done -> flat_contrib c ->
+    (assoc (fst c) (a_imports a) = Some (KInstance y) \/
+     (assoc (fst c) (a_imports a) = None /\ exists en, find_compat (fst c) (a_imports a) = Some (en, KInstance y))) ->
+    get_if (a_types a) y = Some (mkif oid [] exs) ->
+    aggregate ord cf fuel a s (fst c) (fst (snd c)) (snd (snd c)) = AOk (a', s') ->
+    forall i x, snd (snd c) = KInstance i -> get_if (fst (snd c)) i = Some x ->
+      (forall en ek, In (en, ek) (i_exports x) -> In en (map fst exs)) ->
+      exists exs', get_if (a_types a') y = Some (mkif oid [] exs') /\ map fst exs' = map fst exs /\
+                   forall en k tr, assoc en exs = Some k -> UnfK (a_types a) k tr ->
+                                   exists k', assoc en exs' = Some k' /\ UnfK (a_types a') k' tr.
+  Proof.
+    intros HI Hfc Hwhere Hy H i x Ek Hg Hsub. destruct c as [name [t k]]. cbn [fst snd] in *.
+    assert (Hf : flat_exports (a_types a) exs).
+    { destruct Hwhere as [Ha|[_ [en Hf]]].
+      - destruct (h_flat _ _ _ HI _ _ (assoc_in _ _ _ Ha)) as [y1 [oid1 [exs1 [Ey [Hy1 Hf1]]]]]. injection Ey as <-. congruence.
+      - unfold find_compat in Hf. destruct (alt_key name) as [[ak nv]|]; [|discriminate].
+        apply find_on_track_some in Hf as [Hin _].
+        destruct (h_flat _ _ _ HI _ _ Hin) as [y1 [oid1 [exs1 [Ey [Hy1 Hf1]]]]]. injection Ey as <-. congruence. }
+    pose proof Hfc as [Ct [_ [i0 [x0 [Ek0 [Hg0 [Hfl _]]]]]]]. cbn [fst snd] in *. rewrite Ek in Ek0. injection Ek0 as <-.
+    rewrite Hg in Hg0. injection Hg0 as <-.
+    assert (L : LoopSt Col tag0 y (core_of a s) oid exs) by (split; [apply (h_minv _ _ _ HI)|exact Hy|exact Hf]).
+    assert (Hmerge : forall cc, merge_item_kind ord cf fuel (KInstance y) t k (core_of a s) = AOk (tt, cc) ->
+              exists exs', get_if (c_types cc) y = Some (mkif oid [] exs') /\ map fst exs' = map fst exs /\
+                forall en k0 tr, assoc en exs = Some k0 -> UnfK (a_types a) k0 tr ->
+                                 exists k', assoc en exs' = Some k' /\ UnfK (c_types cc) k' tr).
+    { intros cc Hm. rewrite Ek in Hm. cbn [merge_item_kind] in Hm.
+      destruct (merge_interface_flat ord cf Col Col_same tag0 Col_tag fuel y t i x _ cc oid exs Ct Hg Hfl L Hm)
+        as [exs' [L' [_ [K [_ [Old _]]]]]].
+      exists exs'. split; [apply (ls_get _ _ _ _ _ _ L')|]. split; [|exact Old].
+      rewrite K. apply fsu_subset. intros k0 Hk0. apply in_map_iff in Hk0 as [[en ek] [<- Hin]]. now apply (Hsub en ek). }
+    apply aggregate_cases in H as [[existing [cc [Ea [Hm [-> ->]]]]] | [[en [ek [cc [im [rd' [Ea [Ef [Hm [Hr [-> ->]]]]]]]]]] | [k' [cc [Ea [Ef _]]]]]].
+    - destruct Hwhere as [Ha|[Ha _]]; [|congruence]. rewrite Ea in Ha. injection Ha as ->. now apply Hmerge.
+    - destruct Hwhere as [Ha|[_ [en' Hf']]]; [congruence|]. rewrite Ef in Hf'. injection Hf' as _ ->. now apply Hmerge.
+    - destruct Hwhere as [Ha|[_ [en' Hf']]]; congruence.
+  Qed.
 End Hist.
